@@ -76,6 +76,9 @@ def run_config(item):
         if counter["model"] != item["calls"][k - 1]:
             probs.append(("matrix.budget", "call %d: %d model evaluations, contract says %d" % (k, counter["model"], item["calls"][k - 1])))
         iv = ex.importance_values
+        if not isinstance(iv, dict) or not isinstance(ret, dict):
+            probs.append(("matrix.return_is_property", "call %d: explain_one returned %r, importance_values is %r" % (k, type(ret).__name__, type(iv).__name__)))
+            break
         if ret is not iv and dict(ret) != dict(iv):
             probs.append(("matrix.return_is_property", "call %d: returned dict differs from importance_values" % k))
         explained = (k >= 2) if cfg["cls"] in ("IncrementalSage", "IncrementalPFI") else (cfg["cls"] == "BatchSage")
